@@ -341,6 +341,39 @@ def _oracle(scn, S, d):
     cols_eq("C13:list-totals", "totals line", take("totals"), want)
     expect(pos == len(lines), "C13:list-format", f"{len(lines) - pos} unexpected lines after the totals line: {lines[pos:pos + 2]!r}")
 
+    # the human-readable listing reports the same figures: the Blocks table of `xz -lvv` (first file), column by column
+    if v >= 2 and models and sum(len(st_["blocks"]) for st_ in models[0]["streams"]) > 0:
+        m = models[0]
+        rc, out, err = base.run_cmd([xz, "--list", "-vv", m["name"]], env=env)
+        if rc is None:
+            S.inconclusive_count("timeout")
+            return
+        expect(rc == 0 and err == b"", "C13:list-format", f"xz --list -vv exit status {rc}, stderr {err[:300]!r}")
+        text = out.decode("utf-8", "surrogateescape").split("\n")
+        try:
+            at = next(i for i, ln in enumerate(text) if ln.strip() == "Blocks:")
+        except StopIteration:
+            raise base.Violation("C13:list-format", "no 'Blocks:' table in the output of xz --list -vv")
+        rows = []
+        for ln in text[at + 2:]:
+            t = ln.split()
+            if len(t) < 12 or not t[0].isdigit():
+                break
+            rows.append(t)
+        want_rows = []
+        for k, s_ in enumerate(m["streams"]):
+            uo = s_["uoffset"]
+            for j, b in enumerate(s_["blocks"]):
+                want_rows.append([k + 1, j + 1, b["offset"], uo, ceil4(b["unpadded"]), b["uncompressed"], b["header_size"], b["unpadded"] - b["header_size"] - CHECK_SIZE[s_["check"]]])
+                uo += b["uncompressed"]
+        expect(len(rows) == len(want_rows), "C13:list-human", f"xz --list -vv shows {len(rows)} Block rows, the file has {len(want_rows)}")
+        for t, w in zip(rows, want_rows):
+            num = lambda x: int(x.replace(",", "").replace("'", ""))  # noqa: E731
+            got = [num(t[0]), num(t[1]), num(t[2]), num(t[3]), num(t[4]), num(t[5]), num(t[9]), num(t[11])]
+            if got != w:
+                raise base.Violation("C13:list-human", f"xz --list -vv Block row {t[:12]!r}: [stream, block, CompOffset, UncompOffset, TotalSize, UncompSize, Header, CompSize] = {got}, the file has {w}")
+        S.count("human_readable_blocks_table_compared")
+
     nstreams, nblocks = tot["streams"], tot["blocks"]
     S.count(f"verbose_{v}")
     S.count("files_%d" % len(models))
